@@ -12,8 +12,8 @@ SPEC = "harness.group:GroupWorld"
 replay = _dfs.replay
 
 CLUSTER = {"brokers": [1, 2], "topics": {"t": {"0": 1, "1": 2}}, "coordinator": 2}
-ERRS = {"11": [15, 25, 27], "14": [22, 25, 27, 16], "12": [22, 25, 27, 16], "8": [22, 25, 27], "10": [15],
-        "13": [25]}
+ERRS = {"11": [15, 25, 27, 14], "14": [22, 25, 27, 16, 14], "12": [22, 25, 27, 16, 14], "8": [22, 25, 27, 14],
+        "10": [15], "13": [25], "9": [14, 16, 15]}
 EVENTS = [["phantom_joins", "grp"], ["phantom_leaves", "grp"], ["evict", "grp"], ["coordinator", "grp", 1],
           ["append", "t", 0, "late"]]
 MENU = {"err": ERRS, "silent": True, "drop": True, "timer_early": True, "proc_early": True, "app_early": True,
@@ -32,6 +32,12 @@ def configs(tier, menu):
                     "logs": {"t/0": 2, "t/1": 1}, "group": grp, "processor": proc, "commit_every_n": n,
                     "script": [["start"], ["stop", {"consumed": True}]], "menu": menu, "horizon_s": 400})
     if menu is MENU:
+        # the group has committed positions from an earlier life (every consumer must start right after them)
+        out.append({"cluster": CLUSTER, "discovery": False, "timeout_ms": 5000, "topics": ["t"],
+                    "logs": {"t/0": 4, "t/1": 3}, "stored": {"t/0": 1, "t/1": 0},
+                    "group": {"leader": "real", "phantom_topics": ["t"], "phantom_active": False},
+                    "processor": "sync", "commit_every_n": 1,
+                    "script": [["start"], ["stop", {"consumed": True}]], "menu": menu, "horizon_s": 400})
         # heartbeat ticks inside the backoff window of a pending rejoin
         out.append({"cluster": CLUSTER, "discovery": False, "timeout_ms": 5000, "topics": ["t"],
                     "logs": {"t/0": 2, "t/1": 1}, "group": {"leader": "real"}, "processor": "sync",
@@ -61,8 +67,9 @@ RULE = ("real ConsumerGroup + KafkaClient, 2 brokers, topic t with 2 partitions,
         "the member under test plus an optional phantom member (present from the start or joining/leaving as a "
         "cluster event), leader either of them; processor sync/async; auto-commit by count or off; script start, "
         "consume everything, stop (stop may be issued early at every state).  Deviations: error codes on JoinGroup "
-        "{15,25,27}, SyncGroup {22,25,27,16}, Heartbeat {22,25,27,16}, OffsetCommit {22,25,27}, FindCoordinator "
-        "{15}, LeaveGroup {25}; silent broker (-> timeout), drop, phantom joins / leaves, eviction, coordinator "
+        "{14,15,25,27}, SyncGroup {14,16,22,25,27}, Heartbeat {14,16,22,25,27}, OffsetCommit {14,22,25,27}, "
+        "OffsetFetch {14,15,16}, FindCoordinator {15}, LeaveGroup {25}; positions committed in an earlier life of the "
+        "group; silent broker (-> timeout), drop, phantom joins / leaves, eviction, coordinator "
         "move, late append; timers and processor completions overtaking I/O.  Wire-level oracle per member: commits "
         "carry the generation/member of the latest successful join and a partition of the latest successful sync; "
         "fetches and processor calls only for assigned partitions while stable; after a JoinGroup is written no "
